@@ -90,4 +90,525 @@ theorem dupdate_fresh (acc l : SDict F) (hn : (l.map Prod.fst).Nodup)
         intro he
         exact hn.1 (List.mem_map.mpr ⟨kv', hkv', he.symm⟩)
 
+/-! ### the domain of the round trip -/
+
+/-- a timeframe string as `validate_timeframe` leaves it: first character S/T/H/D, upper-casing changes nothing -/
+def tfOk (s : String) : Bool :=
+  match s.toList with
+  | p :: _ => (p == 'S' || p == 'T' || p == 'H' || p == 'D') && (s.toList.map Char.toUpper == s.toList)
+  | [] => false
+
+/-- the analysis function can be named in a dict: it is a value of `PATTERN_MAP | MOVEMENT_MAP` -/
+def AnaFn.inMaps : AnaFn → Bool
+  | .above | .below => false
+  | _ => true
+
+/-- what the class adds to the domain -/
+def IndCfg.clsOk (c : IndCfg F) : Bool :=
+  match c.cls with
+  | .macd f s _ _ => decide (f ≤ s)                 -- `_validate_fields` ordered them
+  | .counter _ cv => !cv.isNone                     -- a `None` field is not emitted
+  | .amorph fn args =>
+    fn.inMaps && decide ((args.map Prod.fst).Nodup)   -- a dict has distinct keys
+    -- `Amorph.settings` keeps truthy values only:
+    && c.fullname_override != some "" && c.name_suffix != some "" && c.round_value != 0
+    && c.candles_lifespan != some 0
+  | _ => true
+
+def IndCfg.validB (c : IndCfg F) : Bool :=
+  (match c.timeframe with
+   | some s => tfOk s
+   | none => !c.timeframe_fill)                     -- `timeframe_fill` is emitted only with a timeframe
+  && c.clsOk
+
+/-- post-`__post_init__` objects whose `settings` determine them -/
+def IndCfg.Valid (c : IndCfg F) : Prop := c.validB = true
+
+instance (c : IndCfg F) : Decidable c.Valid := by unfold IndCfg.Valid; infer_instance
+
+theorem tfOk_validate {s : String} (h : tfOk s = true) : validateTimeframe s = .ok s := by
+  unfold tfOk at h
+  have hu : ∀ hl : s.toList.map Char.toUpper = s.toList, s.toUpper = s := fun hl => by
+    apply String.toList_inj.mp
+    rw [String.toUpper, String.toList_map, hl]
+  cases hs : s.toList with
+  | nil => simp [hs] at h
+  | cons p r =>
+    simp only [hs, Bool.and_eq_true, Bool.or_eq_true, beq_iff_eq] at h
+    have hup := hu (by rw [hs]; exact h.2)
+    simp only [validateTimeframe, hup, hs]
+    rw [if_pos (by simpa [or_assoc] using h.1)]
+
+theorem tfOk_ne_empty {s : String} (h : tfOk s = true) : s ≠ "" := by
+  intro he; subst he; simp [tfOk] at h
+
+theorem validateCs_minimal (t : CsType) : validateCs (.name t.minimalName) = .ok t := by
+  cases t; rfl
+
+theorem ofMapKey_name {fn : AnaFn} (h : fn.inMaps = true) : AnaFn.ofMapKey fn.name = some fn := by
+  cases fn <;> first | rfl | simp [AnaFn.inMaps] at h
+
+theorem anaName_ne_empty (fn : AnaFn) : fn.name ≠ "" := by
+  cases fn <;> decide
+
+
+/-! ### the base entries -/
+
+/-- the base keywords `settings` can emit (`candles` is skipped) -/
+def emittedKeys : List String :=
+  ["fullname_override", "name_suffix", "round_value", "timeframe", "timeframe_fill", "candles_lifespan",
+   "candlestick_type"]
+
+theorem emitted_init {k : String} (h : k ∈ emittedKeys) : k ∈ initKeys := by
+  simp only [emittedKeys, List.mem_cons, List.not_mem_nil, or_false] at h
+  rcases h with h | h | h | h | h | h | h <;> subst h <;> decide
+
+theorem emitted_ne_candles {k : String} (h : k ∈ emittedKeys) : k ≠ "candles" := by
+  intro he; subst he; revert h; decide
+
+theorem baseEntries_emitted (c : IndCfg F) : ∀ kv ∈ c.baseEntries, kv.1 ∈ emittedKeys := by
+  obtain ⟨cls, o, s, r, tf, fill, life, cs⟩ := c
+  cases o <;> cases s <;> cases tf <;> cases life <;> cases cs <;>
+    simp [IndCfg.baseEntries, optE, emittedKeys]
+
+theorem baseEntries_keys (c : IndCfg F) : ∀ kv ∈ c.baseEntries, kv.1 ∈ initKeys :=
+  fun kv h => emitted_init (baseEntries_emitted c kv h)
+
+theorem amorphEntries_emitted [PyF F] (c : IndCfg F) : ∀ kv ∈ c.amorphEntries, kv.1 ∈ emittedKeys := by
+  intro kv h
+  simp only [IndCfg.amorphEntries, List.mem_append] at h
+  have key : ∀ (k : String) (o : Option (SVal F)), kv ∈ truthyE k o → kv.1 = k := by
+    intro k o hk
+    unfold truthyE at hk
+    split at hk
+    · split at hk
+      · simp only [List.mem_singleton] at hk; rw [hk]
+      · simp at hk
+    · simp at hk
+  rcases h with (((((h | h) | h) | h) | h) | h) | h
+  · rw [key _ _ h]; decide
+  · rw [key _ _ h]; decide
+  · rw [key _ _ h]; decide
+  · rw [key _ _ h]; decide
+  · split at h
+    · rw [key _ _ h]; decide
+    · simp at h
+  · rw [key _ _ h]; decide
+  · rw [key _ _ h]; decide
+
+theorem ne_of_mem_initKeys {k k' : String} (h : k' ∈ initKeys) (hk : k ∉ initKeys) : k' ≠ k := by
+  intro he; subst he; exact hk h
+
+/-- a keyword that is no base field is looked up in the class's own entries -/
+theorem dlookup_base_append (c : IndCfg F) (l : SDict F) (k : String) (hk : k ∉ initKeys) :
+    dlookup k (c.baseEntries ++ l) = dlookup k l :=
+  dlookup_append_right k _ _ fun kv hkv => ne_of_mem_initKeys (baseEntries_keys c kv hkv) hk
+
+/-- the base fields bound from the settings of a std class: exactly the object's -/
+theorem readBase_baseEntries (c : IndCfg F) (l : SDict F) (hl : ∀ k ∈ initKeys, dlookup k l = none) :
+    readBase (c.baseEntries ++ l) = .ok ⟨c.fullname_override, c.name_suffix, c.round_value, c.timeframe,
+      (if c.timeframe.isSome then c.timeframe_fill else false), c.candles_lifespan,
+      c.candlestick_type.map fun t => .name t.minimalName⟩ := by
+  have h1 := hl "fullname_override" (by decide)
+  have h2 := hl "name_suffix" (by decide)
+  have h4 := hl "timeframe" (by decide)
+  have h5 := hl "timeframe_fill" (by decide)
+  have h6 := hl "candles_lifespan" (by decide)
+  have h7 := hl "candlestick_type" (by decide)
+  obtain ⟨cls, o, s, r, tf, fill, life, cs⟩ := c
+  cases o <;> cases s <;> cases tf <;> cases life <;> cases cs <;>
+    simp [readBase, IndCfg.baseEntries, optE, dlookup_cons, kwOptStr, kwInt, kwBool, kwOptTd, kwCs,
+      h1, h2, h4, h5, h6, h7, bind, Except.bind, pure, Except.pure]
+
+
+/-! ### the standard classes -/
+
+theorem postInit_base (c : IndCfg F) (hv : c.Valid) :
+    postInit c.cls ⟨c.fullname_override, c.name_suffix, c.round_value, c.timeframe,
+      (if c.timeframe.isSome then c.timeframe_fill else false), c.candles_lifespan,
+      c.candlestick_type.map fun t => .name t.minimalName⟩ = .ok c := by
+  obtain ⟨cls, o, s, r, tf, fill, life, cs⟩ := c
+  simp only [IndCfg.Valid, IndCfg.validB, Bool.and_eq_true] at hv
+  have ht := hv.1
+  cases tf with
+  | none =>
+    simp only [Bool.not_eq_true'] at ht
+    subst ht
+    cases cs <;> simp [postInit, validateCs_minimal, bind, Except.bind, pure, Except.pure]
+  | some t =>
+    simp only at ht
+    cases cs <;> simp [postInit, validateCs_minimal, tfOk_validate ht, bind, Except.bind, pure, Except.pure]
+
+/-- `cls(**settings-without-"indicator")` for a class whose own entries `l` bind back to `c.cls` -/
+theorem construct_settings (pc : PyClass F) (c : IndCfg F) (hv : c.Valid)
+    (hkeys : ∀ kv ∈ c.cls.fields, kv.1 ∈ pc.keys)
+    (hdisj : ∀ k ∈ initKeys, dlookup k c.cls.fields = none)
+    (hctor : pc.ctor (c.baseEntries ++ c.cls.fields) = .ok c.cls) :
+    construct pc (c.baseEntries ++ c.cls.fields) = .ok c := by
+  have hall : (c.baseEntries ++ c.cls.fields).all (fun kv => decide (kv.1 ∈ initKeys ++ pc.keys)) = true := by
+    rw [List.all_eq_true]
+    intro kv hkv
+    rcases List.mem_append.mp hkv with h | h
+    · simpa using Or.inl (baseEntries_keys c kv h)
+    · simpa using Or.inr (hkeys kv h)
+  have hc : candlesOk (c.baseEntries ++ c.cls.fields) = .ok () := by
+    have : dlookup "candles" (c.baseEntries ++ c.cls.fields) = none := by
+      rw [dlookup_append_left _ _ _ (hdisj "candles" (by decide))]
+      exact dlookup_none_of_keys _ _ fun kv hkv => emitted_ne_candles (baseEntries_emitted c kv hkv)
+    simp [candlesOk, this]
+  simp only [construct, hall, hctor, hc, readBase_baseEntries c _ hdisj, postInit_base c hv,
+    bind, Except.bind, Bool.not_true]
+  rfl
+
+
+/-- the obligations of one class: its map key, its own keywords, its constructor on its own entries -/
+theorem build_std_of [PyF F] (c : IndCfg F) (hv : c.Valid) (pc : PyClass F)
+    (hset : c.settings = ("indicator", .str c.cls.name) :: (c.baseEntries ++ c.cls.fields))
+    (hname : c.cls.name ≠ "" ∧ c.cls.name ≠ "Amorph")
+    (hmap : indicatorMap c.cls.name = some pc)
+    (hkeys : ∀ kv ∈ c.cls.fields, kv.1 ∈ pc.keys)
+    (hpc : ∀ k ∈ pc.keys, k ∉ initKeys ∧ k ≠ "indicator")
+    (hctor : pc.ctor (c.baseEntries ++ c.cls.fields) = .ok c.cls) :
+    build c.settings = .ok c := by
+  have hdisj : ∀ k ∈ initKeys, dlookup k c.cls.fields = none := fun k hk =>
+    dlookup_none_of_keys _ _ fun kv hkv he => (hpc _ (hkeys kv hkv)).1 (he ▸ hk)
+  have hder : derase "indicator" (c.baseEntries ++ c.cls.fields) = c.baseEntries ++ c.cls.fields := by
+    apply derase_of_keys
+    intro kv hkv
+    rcases List.mem_append.mp hkv with h | h
+    · intro he
+      have := baseEntries_keys c kv h
+      rw [he] at this
+      revert this; decide
+    · exact (hpc _ (hkeys kv h)).2
+  have ht : (SVal.str c.cls.name : SVal F).truthy = true := by simp [SVal.truthy, hname.1]
+  rw [hset]
+  simp only [build, getTruthy, dlookup_cons, if_true, Option.filter, ht, hname.2, if_false, hmap, derase, hder]
+  exact construct_settings pc c hv hkeys hdisj hctor
+
+
+section perclass
+variable [PyF F]
+
+/-- discharges the six obligations of `build_std_of` for the class `pc` once `c.cls` is a constructor application -/
+macro "std_class " pc:term : tactic => `(tactic|
+  (refine build_std_of _ ‹_› $pc rfl (by simp [Cls.name]) rfl
+      (by simp [Cls.fields, SVal.ofScalar?, SVal.ofNum, $pc:term]) (by simp [$pc:term, initKeys]) ?_
+   simp [$pc:term, Cls.fields, kwInt, kwStr, kwStrReq, kwNum, kwScalar, kwOptInt, SVal.ofNum, SVal.ofScalar?,
+     dlookup_base_append, initKeys, dlookup_cons, bind, Except.bind, pure, Except.pure, *]))
+
+theorem build_settings_std (c : IndCfg F) (hv : c.Valid) (hna : ∀ fn args, c.cls ≠ .amorph fn args) :
+    build c.settings = .ok c := by
+  obtain ⟨cls, o, s, r, tf, fill, life, cs⟩ := c
+  cases cls with
+  | sma p i => std_class clsSMA
+  | ema i p sm => cases sm <;> std_class clsEMA
+  | rma p i => std_class clsRMA
+  | wma i p => std_class clsWMA
+  | vwma p => std_class clsVWMA
+  | hma p i => std_class clsHMA
+  | tr => std_class clsTR
+  | atr p => std_class clsATR
+  | stdev p i => std_class clsSTDEV
+  | bbands p i => std_class clsBBANDS
+  | kc p m i => cases m <;> std_class clsKC
+  | donchian p => std_class clsDonchian
+  | hl p => std_class clsHL
+  | hla => std_class clsHLA
+  | supertrend p m i => cases m <;> std_class clsSupertrend
+  | stdevthres p m i => cases m <;> std_class clsSTDEVTHRES
+  | counter i cv =>
+    have hcv : cv.isNone = false := by
+      simp only [IndCfg.Valid, IndCfg.validB, IndCfg.clsOk, Bool.and_eq_true, Bool.not_eq_true'] at hv
+      exact hv.2
+    cases cv with
+    | none => simp [Scalar.isNone] at hcv
+    | bool b => std_class clsCounter
+    | num n => cases n <;> std_class clsCounter
+  | rsi p i => std_class clsRSI
+  | macd f sl g i =>
+    have hfs : ¬ sl < f := by
+      simp only [IndCfg.Valid, IndCfg.validB, IndCfg.clsOk, Bool.and_eq_true, decide_eq_true_eq] at hv
+      omega
+    std_class clsMACD
+  | roc p i => std_class clsROC
+  | stoch p sl k i => std_class clsSTOCH
+  | tsi p sm i => std_class clsTSI
+  | aroon p => std_class clsAROON
+  | adx p sg => std_class clsADX
+  | obv => std_class clsOBV
+  | vwap p => std_class clsVWAP
+  | amorph fn args => exact absurd rfl (hna fn args)
+
+end perclass
+
+/-! ### Amorph -/
+
+section amorph
+variable [PyF F]
+
+theorem emitted_attr {k : String} (h : k ∈ emittedKeys) : k ∈ indicatorAttrs := by
+  simp only [emittedKeys, List.mem_cons, List.not_mem_nil, or_false] at h
+  rcases h with h | h | h | h | h | h | h <;> subst h <;> decide
+
+theorem readBase_amorphEntries (c : IndCfg F) (ho : c.fullname_override ≠ some "")
+    (hs : c.name_suffix ≠ some "") (hr : c.round_value ≠ 0) (hl : c.candles_lifespan ≠ some 0)
+    (htf : match c.timeframe with | some s => s ≠ "" | none => c.timeframe_fill = false) :
+    readBase c.amorphEntries = .ok ⟨c.fullname_override, c.name_suffix, c.round_value, c.timeframe,
+      c.timeframe_fill, c.candles_lifespan, c.candlestick_type.map .obj⟩ := by
+  obtain ⟨cls, o, s, r, tf, fill, life, cs⟩ := c
+  cases o <;> cases s <;> cases tf <;> cases life <;> cases cs <;> cases fill <;>
+    simp_all [readBase, IndCfg.amorphEntries, truthyE, SVal.truthy, dlookup_cons, kwOptStr, kwInt, kwBool,
+      kwOptTd, kwCs, bind, Except.bind, pure, Except.pure]
+
+omit [PyF F] in
+theorem postInit_amorph (c : IndCfg F) (cls : Cls F)
+    (htf : ∀ s, c.timeframe = some s → tfOk s = true) :
+    postInit cls ⟨c.fullname_override, c.name_suffix, c.round_value, c.timeframe,
+      c.timeframe_fill, c.candles_lifespan, c.candlestick_type.map .obj⟩ = .ok { c with cls := cls } := by
+  obtain ⟨cls0, o, s, r, tf, fill, life, cs⟩ := c
+  cases tf with
+  | none => cases cs <;> simp [postInit, validateCs, bind, Except.bind, pure, Except.pure]
+  | some t =>
+    have ht := htf t rfl
+    cases cs <;> simp [postInit, validateCs, tfOk_validate ht, bind, Except.bind, pure, Except.pure]
+
+theorem build_settings_amorph (c : IndCfg F) (fn : AnaFn) (args : SDict F) (hc : c.cls = .amorph fn args)
+    (hv : c.Valid) : build c.settings = .ok c := by
+  -- unpack the domain
+  simp only [IndCfg.Valid, IndCfg.validB, IndCfg.clsOk, hc, Bool.and_eq_true, decide_eq_true_eq,
+    bne_iff_ne, ne_eq] at hv
+  obtain ⟨htfv, ⟨⟨⟨⟨⟨hin, hnd⟩, ho⟩, hs⟩, hr⟩, hl⟩⟩ := hv
+  have htf : ∀ s, c.timeframe = some s → tfOk s = true := by
+    intro s hs; rw [hs] at htfv; exact htfv
+  have htf' : match c.timeframe with | some s => s ≠ "" | none => c.timeframe_fill = false := by
+    cases h : c.timeframe with
+    | none => rw [h] at htfv; simpa using htfv
+    | some s => exact tfOk_ne_empty (htf s h)
+  -- the settings dict
+  have hset : c.settings = ("analysis", .str fn.name) :: (c.amorphEntries ++ truthyE "args" (some (.dict args))) := by
+    simp only [IndCfg.settings, hc]
+  have hkeys := amorphEntries_emitted c
+  have hne : ∀ (k : String), k ∉ emittedKeys → ∀ kv ∈ c.amorphEntries, kv.1 ≠ k :=
+    fun k hk kv hkv he => hk (he ▸ hkeys kv hkv)
+  have hargsE : ∀ kv ∈ truthyE "args" (some (SVal.dict args)), kv.1 = "args" := by
+    intro kv hkv
+    simp only [truthyE] at hkv
+    split at hkv
+    · simp only [List.mem_singleton] at hkv; rw [hkv]
+    · simp at hkv
+  -- "indicator" is absent, "analysis" names the function
+  have h1 : dlookup "indicator" (c.amorphEntries ++ truthyE "args" (some (SVal.dict args))) = none := by
+    apply dlookup_none_of_keys
+    intro kv hkv
+    rcases List.mem_append.mp hkv with h | h
+    · exact hne _ (by decide) kv h
+    · rw [hargsE kv h]; decide
+  have ht : (SVal.str fn.name : SVal F).truthy = true := by simp [SVal.truthy, anaName_ne_empty]
+  rw [hset]
+  simp only [build, getTruthy, dlookup_cons, h1, Option.filter, ht, if_true, ofMapKey_name hin, derase]
+  simp only [show ("analysis" = "indicator") = False by simp, if_false]
+  -- the constructor
+  have hder1 : derase "analysis" (c.amorphEntries ++ truthyE "args" (some (SVal.dict args)))
+      = c.amorphEntries ++ truthyE "args" (some (SVal.dict args)) := by
+    apply derase_of_keys
+    intro kv hkv
+    rcases List.mem_append.mp hkv with h | h
+    · exact hne _ (by decide) kv h
+    · rw [hargsE kv h]; decide
+  have hargsV : dlookup "args" (c.amorphEntries ++ truthyE "args" (some (SVal.dict args)))
+      = dlookup "args" (truthyE "args" (some (SVal.dict args))) :=
+    dlookup_append_right _ _ _ (hne _ (by decide))
+  have hder2 : derase "args" (c.amorphEntries ++ truthyE "args" (some (SVal.dict args))) = c.amorphEntries := by
+    rw [derase_append, derase_of_keys _ _ (hne _ (by decide))]
+    have : derase "args" (truthyE "args" (some (SVal.dict args))) = [] := by
+      simp only [truthyE]; split <;> simp [derase]
+    rw [this, List.append_nil]
+  have hfa : c.amorphEntries.filter (fun kv => !decide (kv.1 ∈ indicatorAttrs)) = [] := by
+    rw [List.filter_eq_nil_iff]
+    intro kv hkv
+    simp [emitted_attr (hkeys kv hkv)]
+  have hfi : c.amorphEntries.filter (fun kv => decide (kv.1 ∈ indicatorAttrs)) = c.amorphEntries := by
+    rw [List.filter_eq_self]
+    intro kv hkv
+    simp [emitted_attr (hkeys kv hkv)]
+  have hall : c.amorphEntries.all (fun kv => decide (kv.1 ∈ initKeys)) = true := by
+    rw [List.all_eq_true]
+    intro kv hkv
+    simpa using emitted_init (hkeys kv hkv)
+  have hcand : candlesOk c.amorphEntries = .ok () := by
+    have : dlookup "candles" c.amorphEntries = none :=
+      dlookup_none_of_keys _ _ (hne _ (by decide))
+    simp [candlesOk, this]
+  simp only [constructAmorph, hder1, hargsV, hder2, hfa, hfi, hall, hcand,
+    readBase_amorphEntries c ho hs hr hl htf', postInit_amorph c _ htf, bind, Except.bind, Bool.not_true]
+  obtain ⟨cls0, o, s, r, tf, fill, life, cs⟩ := c
+  simp only at hc
+  subst hc
+  simp only [Bool.false_eq_true, if_false, Except.ok.injEq, IndCfg.mk.injEq, Cls.amorph.injEq, true_and, and_true]
+  cases args with
+  | nil => simp [truthyE, SVal.truthy]
+  | cons p r =>
+    simp only [truthyE, SVal.truthy, List.isEmpty_cons, Bool.not_false, if_true, dlookup_cons]
+    rw [dupdate_fresh [] _ hnd (by simp)]
+    simp
+
+end amorph
+
+/-! ### the round trip -/
+
+section main
+variable [PyF F]
+
+/-- **`settings` determines the object**: an indicator rebuilt by `Hexital._build_indicator` from the dict its
+`settings` property returns is the same object (class, parameters and every public field) -/
+theorem build_settings (c : IndCfg F) (h : c.Valid) : build c.settings = .ok c := by
+  cases hc : c.cls <;>
+    first
+    | exact build_settings_amorph c _ _ hc h
+    | exact build_settings_std c h (fun fn args he => by rw [hc] at he; cases he)
+
+/-- … hence the same tree and name (for whatever `str(multiplier)` is) -/
+theorem build_settings_toInd (c : IndCfg F) (h : c.Valid) (mulStr : String) :
+    (build c.settings).map (fun c' => c'.toInd mulStr) = .ok (c.toInd mulStr) := by
+  rw [build_settings c h]; rfl
+
+/-- … and the same manager configuration -/
+theorem build_settings_mgrCfg (c : IndCfg F) (h : c.Valid) :
+    (build c.settings >>= fun c' => c'.mgrCfg) = c.mgrCfg := by
+  rw [build_settings c h]; rfl
+
+/-! ### the negative facts -/
+
+/-- a dict with neither "indicator" nor "analysis": `InvalidAnalysis` -/
+theorem build_missing_key (d : SDict F) (h1 : dlookup "indicator" d = none) (h2 : dlookup "analysis" d = none) :
+    build d = .error .invalidConfig := by
+  simp [build, getTruthy, h1, h2]
+
+/-- … also when the keys are there but falsy (`if indicator.get("indicator")`) -/
+theorem build_falsy_key (d : SDict F) (h1 : getTruthy d "indicator" = none) (h2 : getTruthy d "analysis" = none) :
+    build d = .error .invalidConfig := by
+  simp [build, h1, h2]
+
+theorem mem_derase {α : Type} (k k' : String) (v : α) (l : List (String × α)) (h : (k, v) ∈ l) (hk : k ≠ k') :
+    (k, v) ∈ derase k' l := by
+  induction l with
+  | nil => simp at h
+  | cons p r ih =>
+    obtain ⟨k2, v2⟩ := p
+    by_cases h2 : k2 = k'
+    · simp only [derase, if_pos h2]
+      rcases List.mem_cons.mp h with he | he
+      · cases he; exact absurd h2 hk
+      · exact ih he
+    · simp only [derase, if_neg h2]
+      rcases List.mem_cons.mp h with he | he
+      · rw [he]; simp
+      · exact List.mem_cons_of_mem _ (ih he)
+
+/-- a keyword the class does not have: `TypeError` (for every class reached through "indicator") -/
+theorem build_unknown_keyword (d : SDict F) (name : String) (pc : PyClass F)
+    (hname : dlookup "indicator" d = some (.str name)) (hne : name ≠ "") (hna : name ≠ "Amorph")
+    (hmap : indicatorMap name = some pc)
+    (k : String) (v : SVal F) (hk : (k, v) ∈ d) (hki : k ≠ "indicator") (hkn : k ∉ initKeys ++ pc.keys) :
+    build d = .error .typeError := by
+  have ht : (SVal.str name : SVal F).truthy = true := by simp [SVal.truthy, hne]
+  have hall : (derase "indicator" d).all (fun kv => decide (kv.1 ∈ initKeys ++ pc.keys)) = false := by
+    rw [List.all_eq_false]
+    exact ⟨(k, v), mem_derase _ _ _ _ hk hki, by simpa using hkn⟩
+  simp only [build, getTruthy, hname, Option.filter, ht, if_true, hna, if_false, hmap, construct, hall]
+  rfl
+
+end main
+
+/-! ### the domain is inhabited by the ordinary objects -/
+
+example : ({ cls := .macd 12 26 9 "close" } : IndCfg F).Valid := by rfl
+example : ({ cls := .ema "close" 10 (.int 2), timeframe := some "T5", timeframe_fill := true,
+             candlestick_type := some .ha, candles_lifespan := some 3600, name_suffix := some "" } : IndCfg F).Valid := by rfl
+example : ({ cls := .amorph .rising [("indicator", .str "close"), ("length", .int 3)], timeframe := some "H1",
+             round_value := 2 } : IndCfg F).Valid := by rfl
+example : ({ cls := .amorph .invertedHammer [] } : IndCfg F).Valid := by rfl
+example : ¬ ({ cls := .ema "close" 10 (.int 2), timeframe := some "t5" } : IndCfg F).Valid := by
+  intro h; cases h
+
+/-! ### what `settings` does NOT determine (each excluded from `Valid`, each witnessed) -/
+
+section counterexamples
+variable [PyF F]
+
+/-- `Indicator.settings` skips `timeframe_fill` when there is no timeframe: the rebuilt object has the default -/
+theorem fill_without_timeframe_counterexample :
+    let c : IndCfg F := { cls := .sma 10 "close", timeframe_fill := true }
+    ¬ c.Valid ∧ build c.settings = .ok { c with timeframe_fill := false } := by
+  intro c
+  exact ⟨fun h => (by cases h), rfl⟩
+
+/-- `Amorph.settings` keeps truthy values only, so `round_value = 0` is lost: the rebuilt Amorph rounds to 4 places -/
+theorem amorph_round_zero_counterexample :
+    let c : IndCfg F := { cls := .amorph .highest [("indicator", .str "close")], round_value := 0 }
+    ¬ c.Valid ∧ build c.settings = .ok { c with round_value := 4 } := by
+  intro c
+  exact ⟨fun h => (by cases h), rfl⟩
+
+/-- … and a zero lifespan (`timedelta(0)` is falsy) -/
+theorem amorph_zero_lifespan_counterexample :
+    let c : IndCfg F := { cls := .amorph .positive [], candles_lifespan := some 0 }
+    ¬ c.Valid ∧ build c.settings = .ok { c with candles_lifespan := none } := by
+  intro c
+  exact ⟨fun h => (by cases h), rfl⟩
+
+/-- … and an empty override / suffix (harmless: `_internal_generate_name` tests truthiness too) -/
+theorem amorph_empty_suffix_counterexample :
+    let c : IndCfg F := { cls := .amorph .positive [], name_suffix := some "" }
+    ¬ c.Valid ∧ build c.settings = .ok { c with name_suffix := none }
+      ∧ ∀ ms, (c.toInd ms).name = (({ c with name_suffix := none } : IndCfg F).toInd ms).name := by
+  intro c
+  exact ⟨fun h => (by cases h), rfl, fun ms => rfl⟩
+
+/-- an Amorph over a function that is in neither map (`above`, `below`, any user function) names it in its
+settings, and the dict cannot be built -/
+theorem amorph_unmapped_function_counterexample :
+    let c : IndCfg F := { cls := .amorph .above [("indicator", .str "close"), ("indicator_two", .str "open")] }
+    ¬ c.Valid ∧ build c.settings = .error .invalidConfig := by
+  intro c
+  exact ⟨fun h => (by cases h), rfl⟩
+
+/-- a public field holding `None` is not emitted: `Counter(count_value=None)` comes back with the default -/
+theorem counter_none_counterexample :
+    let c : IndCfg F := { cls := .counter "close" .none }
+    ¬ c.Valid ∧ build c.settings = .ok { c with cls := .counter "close" (.bool true) } := by
+  intro c
+  exact ⟨fun h => (by cases h), rfl⟩
+
+/-- an unknown keyword of an Amorph is NOT an error: it becomes an analysis keyword … -/
+example : build ([("analysis", .str "rising"), ("bogus", .int 1)] : SDict F)
+    = .ok { cls := .amorph .rising [("bogus", .int 1)] } := by rfl
+/-- … unless it is a non-`init` attribute of `Indicator` -/
+example : build ([("analysis", .str "rising"), ("sub_indicators", .none)] : SDict F) = .error .typeError := by rfl
+/-- the analysis keyword `indicator` cannot be written at the top level of the dict: it is taken for the class name -/
+example : build ([("analysis", .str "rising"), ("indicator", .str "close")] : SDict F) = .error .invalidConfig := by rfl
+example : build ([("indicator", .str "EMA"), ("perod", .int 3)] : SDict F) = .error .typeError := by rfl
+example : build ([("period", .int 3)] : SDict F) = .error .invalidConfig := by rfl
+/-- defaults and the MACD ordering of `_validate_fields` -/
+example : build ([("indicator", .str "MACD"), ("fast_period", .int 30), ("round_value", .int 2)] : SDict F)
+    = .ok { cls := .macd 26 30 9 "close", round_value := 2 } := by rfl
+/-- TSI / ADX derived periods -/
+example : build ([("indicator", .str "TSI"), ("period", .int 7)] : SDict F) = .ok { cls := .tsi 7 4 "close" } := by rfl
+example : build ([("indicator", .str "ADX"), ("period", .int 7)] : SDict F) = .ok { cls := .adx 7 7 } := by rfl
+/-- timeframe upper-casing -/
+example : validateTimeframe "t5" = .ok "T5" := by
+  have : "t5".toUpper = "T5" := String.toList_inj.mp (by rw [String.toUpper, String.toList_map]; decide)
+  simp [validateTimeframe, this]
+example : validateTimeframe "x5" = .error .invalidConfig := by
+  have : "x5".toUpper = "X5" := String.toList_inj.mp (by rw [String.toUpper, String.toList_map]; decide)
+  simp [validateTimeframe, this]
+
+end counterexamples
+
 end Hex.Settings
+
+#print axioms Hex.Settings.build_settings
+#print axioms Hex.Settings.build_settings_toInd
+#print axioms Hex.Settings.build_unknown_keyword
+#print axioms Hex.Settings.amorph_round_zero_counterexample
